@@ -61,13 +61,17 @@ def obligations(cx):
             for i, r in enumerate(rs):
                 c = r.value
                 pf = c.f['partial_fluxes']
-                ok = isinstance(pf, Seq) and c.f['feed_compositions'] is comps and c.f['permeances'] is None
-                cx.ob("ideal-curve.%s.%d.shape" % (tag, i), [], blit(ok), kind='paths', function=name)
+                from ..symex import Post as _Post, _len as _plen
+                ok = isinstance(pf, (Seq, _Post)) and c.f['feed_compositions'] is comps and c.f['permeances'] is None
+                cx.ob("ideal-curve.%s.%d.shape" % (tag, i), [], blit(ok), kind='paths', function=name,
+                      statement="the curve is built from the supplied compositions and a list of fluxes (a comprehension or an append loop), permeances left to the constructor")
                 if ok:
                     want = cpf_expected(pv, Tt, comps.fn(j), PREC, Tp, pp, None, None, model)
-                    for qi, q in enumerate(returns(explore_thunk(r.ex, lambda: r.ex.seq_get(pf, j), list(r.pc) + [j >= 0, j < var('ncomp', 'I')]))):
+                    npf = _plen(r.ex, pf)
+                    for qi, q in enumerate(returns(explore_thunk(r.ex, lambda: r.ex.index(pf, j), list(r.pc) + [j >= 0, j < var('ncomp', 'I')]))):
                         Jj = q.value
-                        cx.ob("ideal-curve.%s.%d.point.%d" % (tag, i, qi), q.pc, band(eq(Jj[0], want[0]), eq(Jj[1], want[1]), eq(pf.n, var('ncomp', 'I'))), function=name,
+                        okj = isinstance(Jj, tuple) and len(Jj) == 2
+                        cx.ob("ideal-curve.%s.%d.point.%d" % (tag, i, qi), q.pc, band(eq(Jj[0], want[0]), eq(Jj[1], want[1]), eq(lift(npf), var('ncomp', 'I'))) if okj else FALSE, function=name,
                               statement="every point of an ideal diffusion curve is the standalone flux calculation at that composition with the selected model")
     # ------------------------------------------------------------------ process models: every step is a standalone calculation at the reported state
     cfgs = procs.configs(comp_types=('weight',)) + [procs.Config(f, 'temperature', False, 'molar', 'one', False, model='UNIQUAC') for f in procs.FUNCS]
